@@ -103,7 +103,7 @@ func TestGrammarExplore(t *testing.T) {
 		}
 	}()
 	for i := 0; i < 300; i++ {
-		h, ok := splicegen.FieldConformance(r)
+		h, ok := splicegen.Grammar(r)
 		if !ok && shown < 4 {
 			shown++
 			// re-check to show errors
